@@ -204,7 +204,17 @@ inline void dump_current_case() {
     write_file(args().casefile, t);
 }
 inline void death_cb() { dump_current_case(); }
+// watchdog: SIGALRM every 10 s; if no case was counted for 6 periods in a row the case in flight does not terminate
+struct Watch { volatile uint64_t last = 0; volatile int idle = 0; volatile uint64_t beat = 0; };
+inline Watch &watch() { static Watch w; return w; }
+inline void alive() { watch().beat++; }
 inline void sig_cb(int sig) {
+    if (sig == SIGALRM && !args().replay.size()) {
+        Watch &w = watch();
+        uint64_t now = stats().evaluations + w.beat;
+        if (now != w.last) { w.last = now; w.idle = 0; alarm(10); return; }
+        if (++w.idle < 6) { alarm(10); return; }
+    }
     dump_current_case();
     if (sig == SIGALRM) { static const char m[] = "[harness] ALARM: case did not terminate\n"; (void)!write(2, m, sizeof m - 1); _exit(4); }
     _exit(5);
@@ -312,7 +322,9 @@ inline int main_(int argc, char **argv, const Harness &h) {
         for (auto &f : stats().failures) printf("[replay]   key=%s %s\n", f.key.c_str(), f.msg.c_str());
         return ok ? 0 : 3;
     }
+    alarm(10);     // progress watchdog (see sig_cb)
     h.run();
+    alarm(0);
     write_result();
     return 0;
 }
